@@ -64,6 +64,21 @@ def pairwiseDistinct : List AList → Bool
   | [] => true
   | a :: rest => rest.all (differ a) && pairwiseDistinct rest
 
+/-- base-3 code of `m`'s values on `vs` (a function of `m.lookup` only) -/
+def codeOf (vs : List Nat) (look : Nat → Option Bool) : Nat :=
+  vs.foldl (fun acc v => 3 * acc + (match look v with | none => 0 | some false => 1 | some true => 2)) 0
+
+def nodupNat : List Nat → Bool
+  | [] => true
+  | a :: r => r.all (· != a) && nodupNat r
+
+/-- fast path of the distinctness check: the codes over `vs` are pairwise different -/
+def fastDistinct (vs : List Nat) (ms : List AList) : Bool := nodupNat (ms.map fun m => codeOf vs (fun v => m.lookup v))
+
+/-- the distinctness checker the driver runs (quadratic in cheap `Nat` comparisons on the fast
+path, exact fallback) -/
+def distinctB (vs : List Nat) (ms : List AList) : Bool := fastDistinct vs ms || pairwiseDistinct ms
+
 /-! ### reference DPLL -/
 
 /-- make literal `l` true: drop satisfied clauses, delete `-l` elsewhere -/
